@@ -2,8 +2,8 @@ package props
 
 import (
 	"fmt"
-	"reflect"
 	"os"
+	"reflect"
 	"sort"
 	"strconv"
 	"strings"
@@ -347,10 +347,10 @@ var c20Exprs = map[string]*ref.ANode{
 	"--(a + 4)": {Kind: "predec", S: "(a + 4)"},
 	"++b":       {Kind: "preinc", S: "b"},
 	// not expressions (nil): a syntax error, also inside an operand that is not evaluated
-	"0 && (1 +": nil,
-	"1 || (2 *": nil,
+	"0 && (1 +":  nil,
+	"1 || (2 *":  nil,
 	"0 ? (a = 1": nil,
-	"a = 1 +":   nil,
+	"a = 1 +":    nil,
 }
 
 func c20Alphabet() []c20Op {
